@@ -51,6 +51,7 @@ type EQuant struct {
 type ECond struct{ C, A, B Expr }
 type EOld struct{ X Expr }
 type EPrev struct{ X Expr }
+type EEntry struct{ X Expr }
 type ESum struct {
 	Var    string
 	Lo, Hi Expr
@@ -577,6 +578,12 @@ func (l *lexer) parsePrimary() Expr {
 			x := l.parseExpr()
 			l.expect(")")
 			return EOld{x}
+		case "entry":
+			// entry(e): in a loop invariant or step clause, e in the state in which the loop was entered
+			l.expect("(")
+			x := l.parseExpr()
+			l.expect(")")
+			return EEntry{x}
 		case "prev":
 			// prev(e): in a loop step clause, e at the head of the iteration that just ran
 			l.expect("(")
